@@ -189,6 +189,71 @@ pub fn minimise<P: Prop>(p: &P, w: &mut P::Worker, trace: &Value, oracle: &str) 
     }
 }
 
+/// What a worker keeps of the runs that need no individual treatment (streaming aggregation:
+/// a thorough batch has tens of millions of runs).
+#[derive(Default)]
+struct Agg {
+    evaluations: u64,
+    stats: BTreeMap<String, u64>,
+    fps: Vec<u64>,
+    nontrivial_fps: Vec<u64>,
+    cells: BTreeSet<u64>,
+    states: Vec<u64>,
+    panics: BTreeMap<String, u64>,
+    fp_pairs: Vec<(u64, u64)>,
+}
+
+fn compact(v: &mut Vec<u64>) {
+    v.sort_unstable();
+    v.dedup();
+}
+
+impl Agg {
+    fn absorb(&mut self, run: u64, res: &ExecResult, keep_pairs: bool) {
+        self.evaluations += 1;
+        for (k, v) in &res.stats {
+            *self.stats.entry(k.clone()).or_insert(0) += v;
+        }
+        self.fps.push(res.fingerprint);
+        if res.nontrivial {
+            self.nontrivial_fps.push(res.fingerprint);
+        }
+        self.cells.extend(res.cells.iter());
+        self.states.extend(res.states.iter());
+        for pmsg in &res.sut_panics {
+            *self.panics.entry(pmsg.clone()).or_insert(0) += 1;
+        }
+        if keep_pairs {
+            self.fp_pairs.push((run, res.fingerprint));
+        }
+        // keep memory bounded: de-duplicate whenever a vector has grown a lot
+        if self.states.len() > (1 << 23) {
+            compact(&mut self.states);
+        }
+        if self.fps.len() > (1 << 23) {
+            compact(&mut self.fps);
+            compact(&mut self.nontrivial_fps);
+        }
+    }
+    fn merge(&mut self, mut o: Agg) {
+        self.evaluations += o.evaluations;
+        for (k, v) in o.stats {
+            *self.stats.entry(k).or_insert(0) += v;
+        }
+        self.fps.append(&mut o.fps);
+        self.nontrivial_fps.append(&mut o.nontrivial_fps);
+        self.cells.extend(o.cells.iter());
+        self.states.append(&mut o.states);
+        for (k, v) in o.panics {
+            *self.panics.entry(k).or_insert(0) += v;
+        }
+        self.fp_pairs.append(&mut o.fp_pairs);
+        compact(&mut self.fps);
+        compact(&mut self.nontrivial_fps);
+        compact(&mut self.states);
+    }
+}
+
 struct RunOut {
     run: u64,
     res: ExecResult,
@@ -219,6 +284,7 @@ pub fn run_batch<P: Prop>(p: &P, cfg: &BatchCfg) -> i32 {
     let stop = AtomicBool::new(false);
     let n_viol = AtomicU64::new(0);
     let outs: Mutex<Vec<RunOut>> = Mutex::new(Vec::new());
+    let aggs: Mutex<Vec<Agg>> = Mutex::new(Vec::new());
     let harness_errors: Mutex<Vec<String>> = Mutex::new(Vec::new());
 
     std::thread::scope(|scope| {
@@ -226,6 +292,7 @@ pub fn run_batch<P: Prop>(p: &P, cfg: &BatchCfg) -> i32 {
             scope.spawn(|| {
                 let mut w = p.new_worker();
                 let mut local: Vec<RunOut> = Vec::new();
+                let mut agg = Agg::default();
                 let mut since_recycle = 0u64;
                 loop {
                     if stop.load(Ordering::Relaxed) {
@@ -317,15 +384,19 @@ pub fn run_batch<P: Prop>(p: &P, cfg: &BatchCfg) -> i32 {
                     } else {
                         None
                     };
-                    local.push(RunOut {
-                        run: i,
-                        res,
-                        sample,
-                        violation_trace,
-                        original_trace,
-                    });
+                    agg.absorb(i, &res, cfg.fingerprints_out.is_some());
+                    if res.violation.is_some() || sample.is_some() {
+                        local.push(RunOut {
+                            run: i,
+                            res,
+                            sample,
+                            violation_trace,
+                            original_trace,
+                        });
+                    }
                 }
                 outs.lock().unwrap().append(&mut local);
+                aggs.lock().unwrap().push(agg);
             });
         }
     });
@@ -340,37 +411,32 @@ pub fn run_batch<P: Prop>(p: &P, cfg: &BatchCfg) -> i32 {
         return 2;
     }
 
-    // aggregate in run order
-    let mut stats: BTreeMap<String, u64> = BTreeMap::new();
-    let mut fps: BTreeSet<u64> = BTreeSet::new();
-    let mut nontrivial_fps: BTreeSet<u64> = BTreeSet::new();
-    let mut cells: BTreeSet<u64> = BTreeSet::new();
-    let mut states: BTreeSet<u64> = BTreeSet::new();
+    // aggregate (sums and sets: independent of the order in which workers finished)
+    let mut total_agg = Agg::default();
+    for a in aggs.into_inner().unwrap() {
+        total_agg.merge(a);
+    }
+    let stats = std::mem::take(&mut total_agg.stats);
+    let fps = std::mem::take(&mut total_agg.fps);
+    let nontrivial_fps = std::mem::take(&mut total_agg.nontrivial_fps);
+    let cells = std::mem::take(&mut total_agg.cells);
+    let states = std::mem::take(&mut total_agg.states);
+    let panics = std::mem::take(&mut total_agg.panics);
+    let evaluations = total_agg.evaluations;
     let mut samples: Vec<Value> = vec![];
-    let mut panics: BTreeMap<String, u64> = BTreeMap::new();
     let mut fp_lines = String::new();
-    let evaluations = outs.len() as u64;
     for o in &outs {
-        for (k, v) in &o.res.stats {
-            *stats.entry(k.clone()).or_insert(0) += v;
-        }
-        fps.insert(o.res.fingerprint);
-        if o.res.nontrivial {
-            nontrivial_fps.insert(o.res.fingerprint);
-        }
-        cells.extend(o.res.cells.iter());
-        states.extend(o.res.states.iter());
-        for pmsg in &o.res.sut_panics {
-            *panics.entry(pmsg.clone()).or_insert(0) += 1;
-        }
         if let Some(s) = &o.sample
             && samples.len() < 3
             && (o.res.nontrivial || o.run >= n_fixed)
         {
             samples.push(s.clone());
         }
-        if cfg.fingerprints_out.is_some() {
-            fp_lines.push_str(&format!("{} {:016x}\n", o.run, o.res.fingerprint));
+    }
+    if cfg.fingerprints_out.is_some() {
+        total_agg.fp_pairs.sort_unstable();
+        for (run, f) in &total_agg.fp_pairs {
+            fp_lines.push_str(&format!("{run} {f:016x}\n"));
         }
     }
     if samples.is_empty()
